@@ -1,5 +1,6 @@
 """C16 — stabilised arithmetic (exponent ledger)."""
 from .. import specs, rules_ledger as L
+from ..values import AV as AV_
 from .common import decided_split, pre
 from ..poly import Lin
 
@@ -24,10 +25,12 @@ def check(an, rep, tier):
     rep.trusted = ['ledger axioms: qr/rq/svd/eigh factors with orthonormal '
                    'columns/rows carry scale 0, the triangular / weighted '
                    'factor carries the scale of the input']
-    ds = (2, 3) if tier == 'quick' else (2, 3, 4)
-    L.run_core_stab(an, rep)
+    ds = (2, 3) if tier == 'quick' else (2, 3, 4, 5)
+    I_cs = L.run_core_stab(an, rep)
     for d in ds:
         r = an.run('act_two.mul_scalar', 1, d)
+        L.check_stab_calls(rep, r, 'act_two.mul_scalar',
+                           'one per core pair at d=%d' % d, d)
         for j, rv in enumerate(r.returns):
             L.check_pair(rep, 'act_two.mul_scalar', '(v, p) at d=%d path %d'
                          % (d, j), rv.items[0], rv.items[1])
@@ -49,6 +52,8 @@ def check(an, rep, tier):
             v = dict(Y='tt', k=('lit', k), use_stab=('lit', True))
             r = an.run('transformation.orthogonalize', 0, d, variant=v,
                        extra_key=('stab', k))
+            L.check_stab_calls(rep, r, 'transformation.orthogonalize',
+                               'pivot %d at d=%d' % (k, d), d - 1)
             for j, rv in enumerate(r.returns):
                 L.check_pair(rep, 'transformation.orthogonalize',
                              '(Z, p) for pivot %d at d=%d' % (k, d),
@@ -62,24 +67,20 @@ def check(an, rep, tier):
                              'cores after the 2**(p/d) epilogue at d=%d' % d,
                              rv, None)
         # optima_tt_beam: the running matrix Q carries scale 0 at the end
-        import ast as _ast0
-        qname = None            # the array re-scaled in place by 2**p0
-        for node in _ast0.walk(prog.func('optima.optima_tt_beam').node):
-            if isinstance(node, _ast0.AugAssign) and \
-                    isinstance(node.op, _ast0.Mult) and \
-                    isinstance(node.target, _ast0.Name) and \
-                    isinstance(node.value, _ast0.BinOp) and \
-                    isinstance(node.value.op, _ast0.Pow) and \
-                    isinstance(node.value.left, _ast0.Constant) and \
-                    node.value.left.value == 2:
-                qname = node.target.id
         for vi in (0, 1):
             got = []
 
             def hook(I, fn, outs, got=got):
+                # the running candidate matrix: the 2-d float array(s) that
+                # carry an exponent ledger when the function returns
                 for o in outs:
-                    if o.kind == 'ret' and qname in o.env:
-                        got.append(o.env[qname])
+                    if o.kind != 'ret':
+                        continue
+                    for nm_, v_ in o.env.items():
+                        if isinstance(v_, AV_) and v_.k == 'arr' and \
+                                v_.dims is not None and len(v_.dims) == 2 \
+                                and v_.dt != 'i' and v_.lg is not None:
+                            got.append(v_)
             key = ('beam-hook', vi)
             from .. import interp
             I = interp.Interp(prog, {'split': dict(specs.DEFAULT_SPLIT),
@@ -94,39 +95,19 @@ def check(an, rep, tier):
                              '(variant %d, d=%d)' % (vi, d), q, None)
     import ast as _ast
     fcs = prog.func('core.core_stab')
-    okm = False
-    # the scaling reference = the variable whose log2 gives the exponent
-    ref = None
-    for node in _ast.walk(fcs.node):
-        if isinstance(node, _ast.Call) and \
-                (prog.dotted(node.func) or '').endswith('log2') and \
-                node.args and isinstance(node.args[0], _ast.Name):
-            ref = node.args[0].id
-    for node in _ast.walk(fcs.node):
-        if isinstance(node, _ast.Assign) and \
-                isinstance(node.targets[0], _ast.Name) and \
-                node.targets[0].id == ref and \
-                isinstance(node.value, _ast.Call):
-            from .. import roles as _roles
-            val_ = _roles.inline(fcs.node, node.value)
-            outer = (prog.dotted(val_.func) or '').split('.')[-1]
-            inner = val_.args[0] if val_.args else None
-            iname = (prog.dotted(inner.func) or '').split('.')[-1] \
-                if isinstance(inner, _ast.Call) else (
-                    'abs' if isinstance(inner, _ast.Call) else None)
-            okm = outer in ('max', 'amax') and iname in ('abs', 'absolute')
-    rep.add('P-maxmod', 'core.core_stab', 'scaling reference = max(abs(G))',
-            'ok' if okm else ('violation' if ref is not None else 'unknown'),
-            '' if okm else 'the scaling reference must be the largest modulus '
-            'of the core (maximum of the absolute values); anything else '
-            'under-scales cores whose dominant entry is negative',
-            line=fcs.node.lineno, file=fcs.module.path)
+    for s in I_cs.sites:
+        if s.rule == 'P-maxmod':
+            rep.add('P-maxmod', s.where, 'scaling reference = max(abs(G))',
+                    s.status, '' if s.status == 'ok' else s.detail + ': the '
+                    'scaling reference must be the largest modulus of the '
+                    'core (maximum of the absolute values); anything else '
+                    'under-scales cores whose dominant entry is negative',
+                    line=s.node.lineno, file=s.mod.path)
+    rep.floor('P-maxmod', 1, 'scaling reference')
     L.check_saturation(prog, rep)
-    L.check_stab_per_step(prog, rep)
-    L.check_stab_unconditional(prog, rep)
-    rep.floor('P-stab-every', 3, 'unconditional per-step re-scaling')
+    rep.floor('P-stab-every', 7, 'unconditional per-step re-scaling')
     rep.floor('U-ledger', 14, 'ledger identities')
     rep.floor('P-sat', 1, 'saturation guard')
-    rep.floor('P-stab-step', 2, 'per-step stabilisation')
+    rep.floor('P-stab-step', 14, 'per-step stabilisation')
     rep.floor('G-log', 1, 'guarded log2')
     rep.floor('P-int', 2, 'integer exponent')
